@@ -67,6 +67,32 @@ func main() {
 	}
 	fmt.Printf("Definition devgas_bank_keeper_wiring : string := %s.\n", CoqString(bankWiring))
 
+	// blocked addresses of the bank keeper: app_config.go hands `blockAccAddrs` to the bank module as
+	// BlockedModuleAccountsOverride (x/evm/evmmodule builds the keeper's blocked map from it)
+	var blocked []string
+	override := ""
+	for _, fl := range app {
+		ast.Inspect(fl.F, func(n ast.Node) bool {
+			switch x := n.(type) {
+			case *ast.ValueSpec:
+				if len(x.Names) == 1 && x.Names[0].Name == "blockAccAddrs" && len(x.Values) == 1 {
+					if cl, ok := x.Values[0].(*ast.CompositeLit); ok {
+						for _, e := range cl.Elts {
+							blocked = append(blocked, Nospace(e))
+						}
+					}
+				}
+			case *ast.KeyValueExpr:
+				if id, ok := x.Key.(*ast.Ident); ok && id.Name == "BlockedModuleAccountsOverride" {
+					override = Nospace(x.Value)
+				}
+			}
+			return true
+		})
+	}
+	printList("blocked_module_accounts", blocked)
+	fmt.Printf("Definition blocked_override_wiring : string := %s.\n", CoqString(override))
+
 	// ---- x/devgas/v1/ante
 	dante := ParseDir(repo + "/x/devgas/v1/ante")
 	df := Funcs(dante)
